@@ -379,6 +379,36 @@ Section HANDLER.
       destruct (on_span_cols_inv _ _ _ _ Hb E) as [Hb' Hsent].
       apply Forall_app. split; [exact Hsent|apply IH; exact Hb'].
   Qed.
+
+  (* fourth session: the same with the invariant itself, for the shared batch of the span insert services *)
+  Lemma on_span_cols_inv_sent : forall b s b' sent, batch_inv b -> on_span_cols h sf af b s = StOk b' sent ->
+    batch_inv b' /\ Forall batch_inv sent.
+  Proof.
+    destruct ok_parts as [Hf [Ho [_ [Hn _]]]].
+    intros b s b' sent Hb H. unfold on_span_cols in H.
+    destruct (hp_width_check h && negb ((se_tid s =? 16)%N && (se_sid s =? 8)%N)); [discriminate|].
+    destruct (exec_cops b (hp_once h) 0 (se_vals s)) as [b1|] eqn:E1; [|discriminate].
+    destruct (exec_loop b1 (hp_loop h) 0 (se_keys s) (se_vals s)) as [b2|] eqn:E2; [|discriminate].
+    assert (Hb1 : batch_inv b1).
+    { destruct Hb as [n [k [Hs Ha]]]. destruct (exec_cops_counts _ _ _ _ _ E1) as [Hs1 [Ha1 _]].
+      exists (n + 1)%N, k. rewrite Hs1, Ha1, Hs, Ha. split; [apply add_counts_const_1; exact Ho|apply add_counts_const_0; exact Hn]. }
+    pose proof (loop_inv _ _ _ _ _ Hb1 E2) as Hb2.
+    set (b3 := {| b_spans := b_spans b2; b_attrs := b_attrs b2; b_size := (b_size b2 + se_bytes s)%N |}) in H.
+    assert (Hb3 : batch_inv b3) by (destruct Hb2 as [n [k [Hs Ha]]]; exists n, k; split; assumption).
+    destruct (MiB <? b_size b3)%N; inversion H; subst; clear H.
+    - rewrite Hf. split; [exact batch0_inv|]. constructor; [exact Hb3|constructor].
+    - split; [exact Hb3|constructor].
+  Qed.
+
+  Lemma sent_batches_inv : forall evs b, batch_inv b -> Forall batch_inv (sent_batches h sf af b evs).
+  Proof.
+    induction evs as [|ev evs IH]; intros b Hb; cbn [sent_batches].
+    - constructor; [exact Hb|constructor].
+    - destruct ev as [s| |t]; [|constructor|constructor].
+      destruct (on_span_cols h sf af b s) as [b' sent| |] eqn:E; [|constructor|constructor].
+      destruct (on_span_cols_inv_sent _ _ _ _ Hb E) as [Hb' Hsent].
+      apply Forall_app. split; [exact Hsent|apply IH; exact Hb'].
+  Qed.
 End HANDLER.
 
 Lemma on_span_cols_model_ok :
